@@ -198,11 +198,19 @@ def handleLLO (op : String) (j : Json) : Option (P Json) :=
       let cfgA ← fld j "cfgA" >>= asCfg
       let cfgB ← fld j "cfgB" >>= asCfg
       let envA := mkEnv (fun _ => none) []
-      match codecRoundTrip cfgA (initialOutcome cfgA), codecRoundTrip cfgB (initialOutcome cfgB) with
+      -- optional hand-built starting outcomes (instances that already hold many channels)
+      let startOf (cfg : Cfg) (key : String) : GoRes Outcome :=
+        match fldD j key with
+        | .null => codecRoundTrip cfg (initialOutcome cfg)
+        | s => match asOutcome s with
+          | .ok o => codecRoundTrip cfg o
+          | .error _ => .err "bad-start"
+      let seq0 ← (match fldD j "startSeqNr" with | .null => pure 1 | _ => getNat j "startSeqNr")
+      match startOf cfgA "startA", startOf cfgB "startB" with
       | .ok a0, .ok b0 =>
-        let (outsA, rr) ← runHistory envA cfgA [] a0 1 (← getArr j "roundsA")
+        let (outsA, rr) ← runHistory envA cfgA [] a0 seq0 (← getArr j "roundsA")
         let envB := mkEnv (fun b => if b == [0xA7, 0x7E, 0x57] then rr else none) []
-        let (outsB, _) ← runHistory envB cfgB [] b0 1 (← getArr j "roundsB")
+        let (outsB, _) ← runHistory envB cfgB [] b0 seq0 (← getArr j "roundsB")
         pure (Json.mkObj [("ok", Json.mkObj [("A", .arr outsA), ("B", .arr outsB),
           ("rr", match rr with | some r => jRR r | none => .null)])])
       | _, _ => pure (Json.mkObj [("err", "encode-start")]))
